@@ -256,7 +256,9 @@ void run_case(Rng& rng, std::uint64_t idx)
     count(std::string("runs_") + modes[mode]);
     if (mode == 0 || mode == 1)
     {
-        std::size_t cut = mode == 1 ? rng.range(1, n - 1) : n;
+        // cut 0: the initial checkpoint (never run) goes through text before the first iteration
+        std::size_t cut = mode == 1 ? rng.range(0, n - 1) : n;
+        if (mode == 1 && cut == 0) count("runs_started_from_a_reloaded_never-run_checkpoint");
         std::vector<std::size_t> c1(calls.begin(), calls.begin() + cut), c2(calls.begin() + cut, calls.end());
         std::vector<RankLog> rl(1), rl2(1);
         if (vegas)
@@ -331,7 +333,8 @@ void run_case(Rng& rng, std::uint64_t idx)
     {
         // first segment on the shim, checkpoint through text, second segment on the shim again
         int P = (int)std::vector<int>{1, 2, 3}[rng.below(3)];
-        std::size_t cut = rng.range(1, n - 1);
+        std::size_t cut = rng.range(0, n - 1);
+        if (cut == 0) count("runs_started_from_a_reloaded_never-run_checkpoint");
         std::vector<std::size_t> c1(calls.begin(), calls.begin() + cut), c2(calls.begin() + cut, calls.end());
         std::vector<RankLog> rl1(P), rl2(P);
         std::vector<std::string> t1(P), t2(P);
